@@ -146,7 +146,7 @@ def _case(draw):
     descs = [draw(_desc(k)) for k in kinds]
     ops = []
     for _ in range(draw(st.integers(3, 8))):
-        ops.append([draw(st.sampled_from(["build", "build_edit", "build_keep", "render_kept", "render_cli", "render_cli", "render_api", "render_api", "render_grown", "faulty_krome"])), draw(st.integers(0, nd - 1))])
+        ops.append([draw(st.sampled_from(["build", "build_edit", "build_keep", "render_kept", "render_cli", "render_cli", "render_api", "render_api", "render_grown", "render_plus_after_export", "faulty_krome"])), draw(st.integers(0, nd - 1))])
     if not any(o[0].startswith("render") for o in ops):
         ops.append(["render_cli", 0])
     return {"descs": descs, "ops": ops}
@@ -288,6 +288,17 @@ def _do(op, desc, workdir, k, slot=0):
                 TemplateLoader(s, m, dv).render("vtproj", net, path=root)
                 return _digest(root)
             op = "render_api"
+        if op in ("render_plus", "render_plus_after_export"):
+            # the description plus one reaction added through the API (no file index); exporting the project in between must not
+            # change what the same Network object renders afterwards
+            net = Network(**_network_kwargs(desc, fname))
+            net.add_reaction(Reaction(["H", "H"], ["H2"], alpha=1.0e-17, reaction_type=ReactionType.GAS_TWOBODY))
+            s, m, dv = desc["backend"]
+            if op == "render_plus_after_export":
+                net.export("vtexp", solver=s, method=m, device=dv, prefix=str(Path(workdir)), overwrite=True)
+                shutil.rmtree(Path(workdir) / "vtexp", ignore_errors=True)
+            TemplateLoader(s, m, dv).render("vtproj", net, path=root)
+            return _digest(root)
         net = Network(**_network_kwargs(desc, fname))
         if op == "build":
             _ = net.species
@@ -362,7 +373,7 @@ def check_case(case, tier):
     seen_ops = []
     for k, ((op, i), dg) in enumerate(zip(ops, got)):
         if op.startswith("render"):
-            ref = alone(descs[i], "render_api" if op in ("render_kept", "render_grown") else op, 0)
+            ref = alone(descs[i], "render_api" if op in ("render_kept", "render_grown") else "render_plus" if op == "render_plus_after_export" else op, 0)
             prev_other = [(o, j) for o, j in seen_ops if j != i and differs(descs[i], descs[j])]
             if prev_other:
                 nontrivial = True
@@ -388,7 +399,7 @@ def check_case(case, tier):
         seen_ops.append((op, i))
     # hash-seed independence of the alone rendering
     for i, d in enumerate(descs):
-        for route in sorted({("render_api" if op in ("render_kept", "render_grown") else op) for op, j in ops if j == i and op.startswith("render")}):
+        for route in sorted({("render_api" if op in ("render_kept", "render_grown") else "render_plus" if op == "render_plus_after_export" else op) for op, j in ops if j == i and op.startswith("render")}):
             base = alone(d, route, 0)
             if str(base).startswith(("raised", "status")):
                 continue
